@@ -318,6 +318,10 @@ func main() {
 	println("C10/linkname/along", lowFunc(1), lowMethod(t, 2), lowPtrMethod(&t, 3), t.K)
 	println("C10/linkname/against", low.CallUp(4), low.CallUpMethod(6))
 	println("C10/linkname/chain", high.Chain(7))
+	// exported body-less functions are called by other packages through the package object
+	println("C10/linkname/exported", high.ExportedViaLow(8), low.ExportedUp(9), high.CallExported(10))
+	f := low.ExportedUp
+	println("C10/linkname/exported-value", f(11))
 }
 `
 	lowSrc := `package low
@@ -336,6 +340,9 @@ func upFunc(x Int) Int
 
 //go:linkname upMethod MOD/high.H.upMethodImpl
 func upMethod(h struct{ N Int }, x Int) Int
+
+//go:linkname ExportedUp MOD/high.upImpl
+func ExportedUp(x Int) Int
 
 func CallUp(x Int) Int       { return upFunc(x) }
 func CallUpMethod(x Int) Int { return upFunc(x) * 2 }
@@ -356,6 +363,11 @@ func (h H) upMethodImpl(x Int) Int   { return x + h.N }
 
 //go:linkname viaLow MOD/low.hiddenFunc
 func viaLow(x Int) Int
+
+//go:linkname ExportedViaLow MOD/low.hiddenFunc
+func ExportedViaLow(x Int) Int
+
+func CallExported(x Int) Int { return ExportedViaLow(x) + low.ExportedUp(x) }
 
 func Chain(x Int) Int { return viaLow(x) + low.CallUp(x) }
 `
